@@ -37,6 +37,8 @@ THEOREMS = [
     'Nb.C09.current_stale_source_counterexample',
     'Nb.C09.current_stale_fdata_alias_counterexample',
     'Nb.C09.orig_safe_off_source',
+    'Nb.C09.guard_is_tight',
+    'Nb.C09.generated_tables_agree',
 ]
 ASSUMPTIONS = [
     'hand-written Lean model of save()/to_filename/to_file_map/ArrayProxy/get_fdata cache over an ABSTRACT file '
@@ -80,6 +82,69 @@ PENDING_FINDINGS = [
                'big': True}},
 ]
 
+# ------------------------------------------------------------------------------------------- generated tables
+
+def regen():
+    """Generated/C09.lean: for the six path names the class `save()`/`load()` pick by extension and whether the name
+    is a compressed stream (never memory mapped); the dtypes an MGH header accepts; whether the two `to_file_map`
+    bodies still copy a memmap before the first `get_prepare_fileobj` (statement order read from the AST)."""
+    import ast
+    import inspect
+    import textwrap
+
+    import numpy as np
+    import common
+    import nibabel as nib
+    from nibabel.filename_parser import splitext_addext
+    from nibabel.imageclasses import all_image_classes
+    from nibabel.loadsave import _compressed_suffixes
+    from nibabel.openers import ImageOpener
+    code = {'Nifti1Image': 0, 'Nifti1Pair': 1, 'MGHImage': 2}
+    rows = []
+    for name in PATHS:
+        froot, ext, trailing = splitext_addext(name, _compressed_suffixes)
+        kl = [k for k in all_image_classes if ext.lower() in k.valid_exts]
+        # Nifti1Image saved to .img/.hdr: special-cased to Nifti1Pair in save(); otherwise first valid class
+        cls = code.get(kl[0].__name__, 9) if kl else 9
+        last = os.path.splitext(name)[1].lower()
+        comp = last in ImageOpener.compress_ext_map and last is not None
+        rows.append((cls, comp))
+    mgh = []
+    for i, dt in enumerate(DTS):
+        try:
+            nib.MGHImage.header_class().set_data_dtype(np.dtype(NP_DT[dt]))
+            mgh.append(i)
+        except Exception:
+            pass
+
+    def copies_before_open(fn):
+        """in the body of to_file_map: `isinstance(data, np.memmap)` guard precedes the first get_prepare_fileobj"""
+        tree = ast.parse(textwrap.dedent(inspect.getsource(fn)))
+        first_copy = first_open = None
+        for node in ast.walk(tree):
+            if isinstance(node, ast.Call) and getattr(node.func, 'id', None) == 'isinstance' and \
+                    'memmap' in ast.dump(node) and first_copy is None:
+                first_copy = node.lineno
+            if isinstance(node, ast.Call) and getattr(node.func, 'attr', None) == 'get_prepare_fileobj':
+                first_open = node.lineno if first_open is None else min(first_open, node.lineno)
+        return first_copy is not None and first_open is not None and first_copy < first_open
+    b = lambda x: 'true' if x else 'false'
+    src = ['/-! GENERATED by harness/props/c09.py `regen()` from the nibabel working tree — do not edit. -/',
+           'namespace Nb.C09.Gen', '',
+           '/-- per path (a.nii a.nii.gz b.nii a.img a.mgh a.mgz): (class code 0 Nifti1Image / 1 Nifti1Pair / 2 MGHImage',
+           '    / 9 other chosen by extension, name is a compressed stream) -/',
+           'def pathTable : List (Nat × Bool) := [' + ', '.join(f'({c}, {b(k)})' for c, k in rows) + ']', '',
+           '/-- indices into [u8, i16, i32, f32, f64] of the dtypes `MGHHeader.set_data_dtype` accepts -/',
+           'def mghDtypes : List Nat := [' + ', '.join(map(str, mgh)) + ']', '',
+           '/-- `AnalyzeImage.to_file_map` / `MGHImage.to_file_map`: the memmap copy guard precedes the first',
+           '    `get_prepare_fileobj` (source order) -/',
+           f'def analyzeCopiesBeforeOpen : Bool := {b(copies_before_open(nib.AnalyzeImage.to_file_map))}',
+           f'def mghCopiesBeforeOpen : Bool := {b(copies_before_open(nib.MGHImage.to_file_map))}', '',
+           'end Nb.C09.Gen', '']
+    common.write_if_changed(os.path.join(common.LEAN, 'NibabelModel', 'Generated', 'C09.lean'), '\n'.join(src))
+    return ['Generated.C09.pathTable', 'Generated.C09.mghDtypes', 'Generated.C09.copiesBeforeOpen']
+
+
 # ------------------------------------------------------------------------------------------- cases
 
 _REG = {}       # key -> Case     (every case ever built in this process)
@@ -118,7 +183,7 @@ def selfsave_cases():
     for p in range(6):
         for m in (1, 0):
             for dt in (MGH_DTS if p >= 4 else DTS):
-                for big in (False, True):
+                for big in ((False, True) if m == 1 else (False,)):
                     init = list(INIT_I16)
                     init[p] = dt
                     for h in hist:
@@ -204,8 +269,8 @@ def cases(rng, tier):
     first_mm = [f'L{p}1' for p in range(6)]
     if tier == 'quick':
         out += exhaustive(INIT_MIXED, first_all, FULL_ALPHA, 2, 'exh3')
-        out += exhaustive(INIT_MIXED, first_mm[:4:3] + first_mm[4:5], SMALL_ALPHA, 3, 'exh4')
-        out += random_cases(rng, 2500)
+        out += exhaustive(INIT_MIXED, [first_mm[0], first_mm[4]], SMALL_ALPHA, 3, 'exh4')
+        out += random_cases(rng, 1500)
     elif tier == 'thorough':
         out += exhaustive(INIT_MIXED, first_all, FULL_ALPHA, 2, 'exh3')
         out += exhaustive(INIT_I16, first_all, FULL_ALPHA, 2, 'exh3')
@@ -307,7 +372,7 @@ def _ensure(keys):
     pend.sort(key=lambda k: (k[2], k[0]))      # same initial file system together: templates are reused
     jobs = [(k, _REG[k].data) for k in pend]
     chunks = [jobs[i:i + CHUNK] for i in range(0, len(jobs), CHUNK)]
-    nw = max(1, min(int(os.environ.get('C09_WORKERS', '0') or 0) or 10, os.cpu_count() or 2, len(chunks)))
+    nw = max(1, min(int(os.environ.get('C09_WORKERS', '0') or 0) or 16, os.cpu_count() or 2, len(chunks)))
     shm = '/dev/shm' if os.path.isdir('/dev/shm') and os.access('/dev/shm', os.W_OK) else None
     with tempfile.TemporaryDirectory(prefix='c09_', dir=shm) as workroot:
         if nw == 1:
@@ -388,15 +453,17 @@ def signature(case, what):
 def shrink_candidates(case):
     d = case.data
     ops = d['ops']
+    cand = []          # built (= registered) up front: the first impl() call runs them all in ONE child
     for i in range(len(ops) - 1, -1, -1):
-        yield mk_case(d['init'], ops[:i] + ops[i + 1:], d['big'], case.stream)
+        cand.append(mk_case(d['init'], ops[:i] + ops[i + 1:], d['big'], case.stream))
     if d['big']:
-        yield mk_case(d['init'], ops, False, case.stream)
+        cand.append(mk_case(d['init'], ops, False, case.stream))
     for p in range(6):
         if d['init'][p] not in ('i16',):
             init = list(d['init'])
             init[p] = 'i16'
-            yield mk_case(init, ops, d['big'], case.stream)
+            cand.append(mk_case(init, ops, d['big'], case.stream))
+    yield from cand
 
 
 # ------------------------------------------------------------------------------------------- the child
